@@ -859,7 +859,9 @@ func mergeConts(fn *ssa.Function) bool {
 			if len(k.Instrs) == 0 || len(k.Succs) != 1 || len(k.Preds) < 2 {
 				continue
 			}
-			if !strings_hasPrefix(k.Comment, "inline.cont:") {
+			// either side is a block this file made: a continuation after its callee's last block (a named result
+			// merged there is tested by the caller in the continuation), or the caller's next block after a continuation
+			if !strings_hasPrefix(k.Comment, "inline.cont:") && !strings_hasPrefix(k.Succs[0].Comment, "inline.cont:") {
 				continue
 			}
 			j := k.Succs[0]
